@@ -2,7 +2,7 @@ _C19_MAIN = "server"
 
 PROPS["C19"] = prop(
     "exploration",
-    "rapid-generated query strings against a reference parser written from docs/API.md; normalisation image check for tags; multiset model for reserved-namespace helpers; ; after seeded round 6 (TestC19WTagsAndSearch): login changes through {acc scheme=basic} - the authenticator's namespace holds exactly the login on record"
+    "rapid-generated query strings against a reference parser written from docs/API.md; normalisation image check for tags; multiset model for reserved-namespace helpers; ; after seeded round 6 (TestC19WTagsAndSearch): login changes through {acc scheme=basic} - the authenticator's namespace holds exactly the login on record; round 7: accounts created through {acc user=new} with tag lists which need cleaning"
     "world: rapid-generated histories of {set tags} on 'me'/groups (owner, non-owner), {acc tags}, group creation with tags, {set fnd public|private} + {get fnd sub}, "
     "account suspension/deletion and topic deletion under generated reserved/masked/rewriting namespace configurations, judged by a reference model of accounts, topics, tags and "
     "states compared with the store, the cached tags, every {meta tags} and the answer of every search after every step; thorough tier: the same generators and oracles also run under Go's native coverage-guided fuzzer (rapid.MakeFuzz, 60 s per target, all cores)",
